@@ -70,7 +70,7 @@ func build() {
 	write(secretAbs, m3)
 	write(filepath.Join(parent, "sibling", "leak.js"), m4)
 	write(filepath.Join(parent, "rootx.css"), m4) // shares the root's name as a prefix
-	root2 = filepath.Join(parent, "second")
+	root2 = filepath.Join(parent, "root.") // its name differs from the first root's by a trailing dot only
 	for _, f := range []string{"a.css", "b.js", "f1.txt", "index.html", "sub/c.css", "only2.js"} {
 		write(filepath.Join(root2, filepath.FromSlash(f)), "ROOT2FILE<"+f+">"+tag)
 	}
@@ -402,6 +402,13 @@ func prop(t *rapid.T) {
 					ps[k] = "notes.md"
 				}
 			}
+		}
+		// requests carry query strings as well (download links, cache busters, a path smuggled in as a parameter): a
+		// static mount answers by the path alone
+		if rapid.IntRange(0, 3).Draw(t, "withQuery") == 0 {
+			u.RawQuery = rapid.SampledFrom([]string{"v=123", "download=1", "file=../secret.txt", "path=" + url.QueryEscape(secretAbs), "raw=1&name=..%2Fsecret.txt",
+				"attachment=secret.txt", "inline=1", "dir=..", "root=/", "f=sibling/leak.js&download=true"}).Draw(t, "query")
+			ev.Class("request-with-a-query-string")
 		}
 		orig := *u // StaticFiles rewrites Req.URL.Path: keep what was requested
 		rec := httptest.NewRecorder()
